@@ -3,8 +3,9 @@ module verifharness
 go 1.23.0
 
 require (
-	evylang.dev/evy v0.0.0
+	evylang.dev/evy v0.1.207
 	evylang.dev/evy/learn v0.0.0
+	golang.org/x/tools v0.29.0
 )
 
 replace evylang.dev/evy => /repo
